@@ -39,6 +39,7 @@ Max(a, b) == IF a < b THEN b ELSE a
 (* configuration selects another lattice by the definition override  CONSTANT Default <- Default2.              *)
 Default == 1
 Default2 == 2
+Default3 == 3   \* real priorities in thirds: not representable in binary floating point of any width
 Default4 == 4
 
 Emit(op, args, exp) ==
